@@ -417,12 +417,16 @@ int xcm_receive(struct xcm_socket *__restrict conn_s,
 
     if (conn_s->is_blocking) {
 	for (;;) {
-	    if (socket_wait(conn_s, XCM_SO_RECEIVABLE) < 0)
-		return -1;
+	    /* try first: a connection that has failed (e.g., on a
+	       protocol error) reports so again without anything new
+	       having to arrive */
 	    int s_rc = xcm_tp_socket_receive(conn_s, buf, capacity);
 
 	    if (s_rc >= 0 || errno != EAGAIN)
 		return s_rc;
+
+	    if (socket_wait(conn_s, XCM_SO_RECEIVABLE) < 0)
+		return -1;
 	}
     } else
 	return xcm_tp_socket_receive(conn_s, buf, capacity);
